@@ -56,9 +56,9 @@ func main() {
 		opt.Tier = "quick"
 	}
 	if opt.Timeout == 0 {
-		opt.Timeout = 20
+		opt.Timeout = 45
 		if opt.Tier == "thorough" {
-			opt.Timeout = 120
+			opt.Timeout = 180
 		}
 	}
 	if s := os.Getenv("VERIF_SEED"); s != "" {
@@ -285,7 +285,11 @@ func runCheck(prop string, opt *Options) int {
 		}
 		failNames = append(failNames, o.Name)
 		if k := kf.match(prop, o.Name); k != nil {
-			fmt.Printf("KNOWN-FINDING: property=%s %s\n", prop, k.Text)
+			if strings.HasPrefix(k.Text, "property=") {
+				fmt.Printf("KNOWN-FINDING: %s\n", k.Text)
+			} else {
+				fmt.Printf("KNOWN-FINDING: property=%s %s\n", prop, k.Text)
+			}
 			continue
 		}
 		os.MkdirAll(replayDir, 0o755)
